@@ -249,7 +249,9 @@ def judge_case(prop, case, res, m, cfg, truth):
             if last["cmd"] == "solve_exact" and "y" in ev:
                 for t in cert.check_farkas(m, parse_list(ev["y"])):
                     V.append(("C02|%s|farkas" % cfg["entry"], t + " y=%s" % ev["y"]))
-            if truth and truth["status"] in ("OPTIMAL", "UNBOUNDED"):
+            # `knife-far` LPs are feasible only at points beyond 1e150, the library's infinity: inside the library's number range they
+            # are infeasible, so only the certificate clause above applies to them
+            if truth and truth["status"] in ("OPTIMAL", "UNBOUNDED") and not (getattr(m, "far", False) or (case.meta or {}).get("stream") == "knife-far"):
                 V.append(("C02|%s|infeasible-on-feasible" % cfg["entry"], "INFEASIBLE reported but the LP has a feasible point (truth %s)" % truth["status"]))
         elif truth and truth["status"] == "INFEASIBLE":
             C["infeasible-truth-other-status"] = 1
